@@ -14,7 +14,7 @@ from ..symx import Expander, TupleV, ListV
 from ..ncf import M
 from .. import ncf, anf
 from ..anf import R, Unsupported
-from .common import struct_ob, formula_ob, guard, last_return
+from .common import struct_ob, formula_ob, guard, last_return, U
 from .gpm import gp_expander, refs, mob, REL
 from ..report import AnalysisError
 
@@ -30,24 +30,24 @@ def run(prog, tier):
     # ---------------------------------------------------------------- the mean function enters both predictors
     for mname, var in (("gradient", "mean"), ("spatial_derivatives", "dmu_dx")):
         c, fn = prog.method("GpRegressor", mname)
-        defs = [s for s in ast.walk(fn) if isinstance(s, ast.Assign) and ast.unparse(s.targets[0]) == var]
+        defs = [s for s in ast.walk(fn) if isinstance(s, ast.Assign) and U(s.targets[0]) == var]
         ok, why = False, f"no definition of `{var}`"
         if len(defs) == 1:
             # transitive dependence of the returned mean derivative on self.mean
             names = {n.id for n in ast.walk(defs[0].value) if isinstance(n, ast.Name)}
-            src = {ast.unparse(s.targets[0]): s.value for s in ast.walk(fn) if isinstance(s, ast.Assign) and len(s.targets) == 1}
+            src = {U(s.targets[0]): s.value for s in ast.walk(fn) if isinstance(s, ast.Assign) and len(s.targets) == 1}
             seen, todo = set(), list(names)
-            dep = "self.mean" in ast.unparse(defs[0].value).replace("self.mean_hyperpars", "")
+            dep = "self.mean" in U(defs[0].value).replace("self.mean_hyperpars", "")
             while todo and not dep:
                 n = todo.pop()
                 if n in seen or n not in src:
                     continue
                 seen.add(n)
-                if "self.mean." in ast.unparse(src[n]) or "self.mean(" in ast.unparse(src[n]):
+                if "self.mean." in U(src[n]) or "self.mean(" in U(src[n]):
                     dep = True
                 todo.extend(x.id for x in ast.walk(src[n]) if isinstance(x, ast.Name))
             ok = dep
-            why = f"`{ast.unparse(defs[0])}`"
+            why = f"`{U(defs[0])}`"
         obs.append(struct_ob("mean-gradient-depends", qual(c, fn), ok,
                              f"the predicted mean gradient must depend on the mean function (a non-constant mean contributes its own "
                              f"spatial gradient): {why}", REL, fn.lineno))
@@ -60,7 +60,7 @@ def run(prog, tier):
         base_hook = ex.call_atoms
 
         def hook(e, node, env, base_hook=base_hook):
-            f = ast.unparse(node.func)
+            f = U(node.func)
             if f == "self.mean.gradient":
                 return M.atom("dmq", 1)
             return base_hook(e, node, env)
@@ -70,7 +70,7 @@ def run(prog, tier):
 
         def mbinop(node, env, orig=orig, ex=ex):
             if isinstance(node.op, ast.Mult):
-                t = ast.unparse(node)
+                t = U(node)
                 if t == "K_qx * self.alpha":
                     return M.atom("KqxA", 2)              # K_qx o alpha  (1 x n)
                 if t in ("A * K_qx", "A * K_qx[None, :]"):
@@ -79,7 +79,16 @@ def run(prog, tier):
         ex.mbinop = mbinop
         env = {fn.args.args[1].arg: M.atom("points", 2), "mu_q": ListV([]), "vars": ListV([]),
                "mu_gradients": ListV([]), "var_gradients": ListV([])}
-        guard(lambda: ex.exec_block([s for s in fn.body if not isinstance(s, ast.Return)], env))
+        def without_cov(stmts):
+            out = []
+            for s_ in stmts:
+                if isinstance(s_, ast.Assign) and U(s_.targets[0]) == "covariance":
+                    continue
+                if isinstance(s_, ast.For):
+                    s_ = ast.For(target=s_.target, iter=s_.iter, body=without_cov(s_.body), orelse=s_.orelse, lineno=s_.lineno, col_offset=0)
+                out.append(s_)
+            return out
+        guard(lambda: ex.exec_block(without_cov([s for s in fn.body if not isinstance(s, ast.Return)]), env))
         got = env.get(var)
         # numpy broadcasting of the (d,) mean gradient against the (d,1) kernel term is written dm[:, None]
         want = M.atom("At", 2).matmul(M.atom("KqxA", 2).T()) + M(dict(M.atom("dmq", 1).terms), 2)
@@ -93,19 +102,19 @@ def run(prog, tier):
                            "variance derivative = -2 (A o K_qx) K^-1 K_xq"))
         else:
             # covariance = diag(R) - Q^T Q with R the vector of prior gradient variances
-            cdef = [s for s in ast.walk(fn) if isinstance(s, ast.Assign) and ast.unparse(s.targets[0]) == "covariance"]
+            cdef = [s for s in ast.walk(fn) if isinstance(s, ast.Assign) and U(s.targets[0]) == "covariance"]
             ok, why = False, "no `covariance` definition"
             if len(cdef) == 1:
                 v = cdef[0].value
-                why = ast.unparse(v)
+                why = U(v)
                 ok = (isinstance(v, ast.BinOp) and isinstance(v.op, ast.Sub)
-                      and ast.unparse(v.left) in ("diag(R)",) and ast.unparse(v.right).replace("(", "").replace(")", "") == "Q.T @ Q")
+                      and U(v.left) in ("diag(R)",) and U(v.right).replace("(", "").replace(")", "") == "Q.T @ Q")
                 # R is the second value returned by gradient_terms, Q = L^-1 (A o K_qx)^T
                 gt = [s for s in ast.walk(fn) if isinstance(s, ast.Assign) and isinstance(s.value, ast.Call)
-                      and ast.unparse(s.value.func) == "self.cov.gradient_terms"]
-                ok = ok and len(gt) == 1 and ast.unparse(gt[0].targets[0]) == "(A, R)"
-                qd = [s for s in ast.walk(fn) if isinstance(s, ast.Assign) and ast.unparse(s.targets[0]) == "Q"]
-                ok = ok and len(qd) == 1 and ast.unparse(qd[0].value) == "solve_triangular(self.L, (A * K_qx).T, lower=True)"
+                      and U(s.value.func) == "self.cov.gradient_terms"]
+                ok = ok and len(gt) == 1 and U(gt[0].targets[0]) == "(A, R)"
+                qd = [s for s in ast.walk(fn) if isinstance(s, ast.Assign) and U(s.targets[0]) == "Q"]
+                ok = ok and len(qd) == 1 and U(qd[0].value) == "solve_triangular(self.L, (A * K_qx).T, lower=True)"
             obs.append(struct_ob("gradient-cov-rank", qual(c, fn), ok,
                                  f"the gradient covariance must be diag(prior gradient variances) - Q^T Q with Q = L^-1 (A o K_qx)^T; a "
                                  f"length-d vector minus a d x d matrix broadcasts row-wise and is not symmetric: `{why}`",
@@ -155,12 +164,12 @@ def run(prog, tier):
         va = [a for a in K.all_atoms() if a[0] == "sym" and a[1].startswith("V")]
         if len(ua) != 1 or len(va) != 1:
             raise AnalysisError(f"{kc.name}.__call__: cannot identify the two point-set atoms ({ua}, {va})")
-        U, V = ua[0], va[0]
-        dlogk = anf.diff(anf.log_(K), U, pointwise_sum=True)
-        d2 = anf.diff(anf.diff(K, U, pointwise_sum=True), V, pointwise_sum=True)
+        UA, VA = ua[0], va[0]
+        dlogk = anf.diff(anf.log_(K), UA, pointwise_sum=True)
+        d2 = anf.diff(anf.diff(K, UA, pointwise_sum=True), VA, pointwise_sum=True)
         Qs, Xs = R.sym("Q"), R.sym("X")
-        wantA = anf.subst(dlogk, {U: Qs, V: Xs})
-        wantR = anf.subst(d2, {V: R.atom(U)})
+        wantA = anf.subst(dlogk, {UA: Qs, VA: Xs})
+        wantR = anf.subst(d2, {VA: R.atom(UA)})
         ex2 = Expander(prog, kc.module, kc)
         ex2.scalar_names = {"theta[0]", "theta[1:]", "theta[2:]", "theta[1]", "Q", "X"}
         res = guard(lambda: ex2.run(gt.body, {gt.args.args[1].arg: Qs, gt.args.args[2].arg: Xs, gt.args.args[3].arg: theta}))
@@ -171,7 +180,7 @@ def run(prog, tier):
         obs.append(formula_ob("kernel-derivative-terms", qual(kc, gt) + "[R]", res.items[1], wantR, COV, gt.lineno,
                               what="R = d^2 k(q, q') / dq dq' at q = q' (per dimension)"))
         ret = last_return(gt)
-        okT = isinstance(ret.value, ast.Tuple) and ast.unparse(ret.value.elts[0]).endswith(".T")
+        okT = isinstance(ret.value, ast.Tuple) and U(ret.value.elts[0]).endswith(".T")
         if not okT:
             obs.append(struct_ob("kernel-derivative-terms", qual(kc, gt) + "[layout]", False,
                                  "the first returned term must be transposed to (dimensions x points), the layout the regressor multiplies with",
